@@ -1,5 +1,6 @@
 "C02 — repeaters make exactly N copies and number them as documented"
 import itertools
+import os
 from hypothesis import strategies as st
 from vlib import core, abbr_model as M, abbr_gen as G
 from vlib.core import guard
@@ -7,7 +8,7 @@ from emmet import expand
 
 PROP_ID = 'C02'
 RULE = ("case = (structured script with *N repeaters and counter atoms, maxRepeat or None). (a) exhaustive: 5 nesting shapes (repeated element, "
-        "repeated parent with counter in descendant, repeated group, nested repeaters, sibling after a repeater) × 7 placements (name, class, id, "
+        "repeated parent with counter in descendant, repeated group, nested repeaters, sibling after a repeater) × 8 placements (attribute name, name, class, id, "
         "unquoted/double-/single-quoted attribute value, text) × N ≤ 6 (12 thorough) × width ≤ 3 (4) × numbering forms {$, @M, @-, @-M; M ∈ 0 1 2 5 (+10 17)}; "
         "maxRepeat M = 1..30 on a fixed family of nested/sequential/grouped repeater scripts; (b) Hypothesis scripts with counters in every value "
         "position, groups nested ≤ 3, N ≤ 12, with and without maxRepeat. Oracle: reference unroll + counter substitution (copy i of the nearest "
@@ -148,10 +149,12 @@ def place(counter, where):
         return el('xe', m=[['a', 't', 'dq', ['v ', c, ' w'], False]])
     if where == 'sq':
         return el('xe', m=[['a', 't', 'sq', [c], False]])
+    if where == 'attrname':
+        return el('xe', m=[['a', ['data-', c], 'raw', ['v'], False]])
     return el('xe', x=['T ', c, '.'])
 
 
-PLACES = ['name', 'class', 'id', 'raw', 'dq', 'sq', 'text']
+PLACES = ['name', 'class', 'id', 'raw', 'dq', 'sq', 'text', 'attrname']
 
 
 def exhaustive_cases(thorough):
@@ -223,6 +226,12 @@ def shard_random(ctx, shard, nshards, n):
 
 def run(ctx):
     ctx.run_parallel('shard_exhaustive')
-    ctx.exhaustive('7 nesting shapes × 7 placements × N ≤ %d × width ≤ %d × %d numbering forms; maxRepeat 1..30 × %d scripts' % (
+    ctx.exhaustive('7 nesting shapes × 8 placements × N ≤ %d × width ≤ %d × %d numbering forms; maxRepeat 1..30 × %d scripts' % (
         12 if ctx.thorough else 6, 4 if ctx.thorough else 3, 14 if ctx.thorough else 10, len(MR_SCRIPTS)))
     ctx.run_parallel('shard_random', extra=(ctx.pick(300, 4000),))
+    if ctx.thorough or os.environ.get('VERIF_FUZZ'):
+        ctx.run_atheris('repeat', ctx.pick(300, 4000), guided=True)
+
+
+# coverage-guided layer (thorough tier): the Hypothesis strategy under libFuzzer (vlib/fuzz.py, guided mode)
+GUIDED = {'repeat': strategy}
